@@ -1,3 +1,4 @@
 import Audit.Tool
 import Uds.Props.C08
+import Uds.Props.C08Call
 #audit Uds.Props.C08
